@@ -164,6 +164,13 @@ type UserSpec struct {
 	Balance    float64
 	AllowBuy   bool
 	History    []History
+	Flags      []FlagKV // map[string]int32 entries (distinct keys, kept in a fixed order for the model)
+}
+
+// FlagKV is one entry of TestObject.Flags.
+type FlagKV struct {
+	Key string
+	Val int32
 }
 
 func (u UserSpec) Build() *testobj.TestObject {
@@ -175,13 +182,23 @@ func (u UserSpec) Build() *testobj.TestObject {
 		}
 		o.Finance = f
 	}
+	if len(u.Flags) > 0 {
+		o.Flags = testobj.TestFlag{}
+		for _, kv := range u.Flags {
+			o.Flags[kv.Key] = kv.Val
+		}
+	}
 	return o
 }
 
 func (u UserSpec) Enc() string {
 	var sb strings.Builder
-	fmt.Fprintf(&sb, "o 6 %s s %s %s y %s %s i %d %s u %d %s f %s %s ", hs("Id"), hs(u.Id), hs("Name"), hs(u.Name), hs("Status"), u.Status,
-		hs("Ustate"), u.Ustate, hs("Cost"), hs(ftxt(u.Cost)), hs("Finance"))
+	fmt.Fprintf(&sb, "o 7 %s s %s %s y %s %s i %d %s u %d %s f %s %s o %d", hs("Id"), hs(u.Id), hs("Name"), hs(u.Name), hs("Status"), u.Status,
+		hs("Ustate"), u.Ustate, hs("Cost"), hs(ftxt(u.Cost)), hs("Flags"), len(u.Flags))
+	for _, kv := range u.Flags {
+		fmt.Fprintf(&sb, " %s i %d", hs(kv.Key), kv.Val)
+	}
+	fmt.Fprintf(&sb, " %s ", hs("Finance"))
 	if !u.HasFinance {
 		sb.WriteString("n")
 	} else {
@@ -407,6 +424,7 @@ type RCase struct {
 	CheckShape bool // after every reset compare VerifCtxShape with a new context's
 	Pool       bool // reset = ReleaseCtx + AcquireCtx
 	KeepOut    bool // fault-free renders go through dyntpl.Render and the returned slices are re-checked at the end
+	Entries    bool // renders go through all public entry points in turn: by key, by ID, fallback (first key missing / present)
 	// filled by run
 	ShapeDiffs []string
 	Mutated    []string
@@ -419,6 +437,15 @@ type RCase struct {
 }
 
 const sessFuel = 1200
+
+// entryID is the numeric ID a template key is also registered under (Entries).
+func entryID(key string) int {
+	h := 7
+	for i := 0; i < len(key); i++ {
+		h = h*31 + int(key[i])
+	}
+	return 100000 + (h&0x7fffffff)%800000
+}
 
 // Run executes the case on the real engine and builds the driver request.
 func (c *RCase) Run() {
@@ -435,6 +462,9 @@ func (c *RCase) Run() {
 			return
 		}
 		dyntpl.RegisterTplKey(t.Key, tree)
+		if c.Entries {
+			dyntpl.RegisterTplID(entryID(t.Key), tree)
+		}
 		c.Dumps = append(c.Dumps, string(dyntpl.VerifDumpTree(tree)))
 	}
 	ctx := dyntpl.NewCtx()
@@ -456,7 +486,11 @@ func (c *RCase) Run() {
 			}
 		}
 	}()
-	for _, o := range c.Ops {
+	for oi, o := range c.Ops {
+		via := 0
+		if c.Entries {
+			via = oi % 4
+		}
 		if o.Kind == "reset" && (c.Pool || c.CheckShape) {
 			if c.Pool {
 				dyntpl.ReleaseCtx(ctx)
@@ -484,7 +518,16 @@ func (c *RCase) Run() {
 						c.Panic = fmt.Sprintf("render %s: %v\n%s", o.Key, x, trimStack(stack()))
 					}
 				}()
-				out, err = dyntpl.Render(o.Key, ctx)
+				switch via {
+				case 1:
+					out, err = dyntpl.RenderByID(entryID(o.Key), ctx)
+				case 2:
+					out, err = dyntpl.RenderFallback("no-such-template", o.Key, ctx)
+				case 3:
+					out, err = dyntpl.RenderFallback(o.Key, "no-such-template", ctx)
+				default:
+					out, err = dyntpl.Render(o.Key, ctx)
+				}
 			}()
 			if c.Panic != "" {
 				return
@@ -513,7 +556,16 @@ func (c *RCase) Run() {
 					c.Panic = fmt.Sprintf("render %s: %v\n%s", o.Key, x, trimStack(stack()))
 				}
 			}()
-			err = dyntpl.Write(w, o.Key, ctx)
+			switch via {
+			case 1:
+				err = dyntpl.WriteByID(w, entryID(o.Key), ctx)
+			case 2:
+				err = dyntpl.WriteFallback(w, "no-such-template", o.Key, ctx)
+			case 3:
+				err = dyntpl.WriteFallback(w, o.Key, "no-such-template", ctx)
+			default:
+				err = dyntpl.Write(w, o.Key, ctx)
+			}
 		}()
 		if c.Panic != "" {
 			return
@@ -590,6 +642,11 @@ func genUser(r *Run) UserSpec {
 		for i := 0; i < n; i++ {
 			u.History = append(u.History, History{DateUnix: pick(r, intPool), Cost: pick(r, floatPool), Comment: pick(r, strPool)})
 		}
+	}
+	keys := []string{"export", "ro", "Valid", "a", "10"}
+	r.Rng.Shuffle(len(keys), func(i, j int) { keys[i], keys[j] = keys[j], keys[i] })
+	for _, k := range keys[:r.Rng.Intn(4)] {
+		u.Flags = append(u.Flags, FlagKV{k, int32(pick(r, []int64{0, 1, -1, 7, 17, 100, math.MaxInt32, math.MinInt32}))})
 	}
 	return u
 }
